@@ -32,6 +32,7 @@
 
 #define MAXFD 65536
 static unsigned char tracked[MAXFD]; /* 0 none, 1 seqpacket socket, 2 shm, 3 epoll, 4 listener */
+static unsigned char was_tracked[MAXFD]; /* kind of a tracked descriptor that has been closed and whose number was not seen again */
 static int log_fd = -1;
 static long sndbuf_override = 0;
 static volatile long seq_ctr = 0;
@@ -103,7 +104,7 @@ static void logf_(const char *fmt, ...) {
 }
 
 static int is_tracked(int fd) { return fd >= 0 && fd < MAXFD && tracked[fd]; }
-static void track(int fd, int kind) { if (fd >= 0 && fd < MAXFD) tracked[fd] = kind; }
+static void track(int fd, int kind) { if (fd >= 0 && fd < MAXFD) { tracked[fd] = kind; was_tracked[fd] = 0; } }
 
 /* called before every tracked call: kill injection */
 static void tick(void) {
@@ -315,10 +316,23 @@ ssize_t recv(int fd, void *b, size_t n, int flags) {
 int close(int fd) {
     init_once(); RESOLVE(close);
     if (fd == log_fd && log_fd >= 0) { errno = EBADF; return -1; }
-    if (!is_tracked(fd)) return r_close(fd);
+    if (!is_tracked(fd)) {
+        /* a descriptor the crate created and already closed: a second close of the same number that FAILS (nobody re-used the
+           number meanwhile) is a double close and is logged; one that succeeds closes somebody else's descriptor that re-used the
+           number - the flag is dropped without a record (it may as well be that descriptor's rightful owner) */
+        if (fd >= 0 && fd < MAXFD && was_tracked[fd]) {
+            int kind0 = was_tracked[fd];
+            was_tracked[fd] = 0;
+            int r0 = r_close(fd); int e0 = errno;
+            if (r0 != 0) logf_("close fd=%d kind=%d res=%d errno=%d stale=1", fd, kind0, r0, e0);
+            errno = e0; return r0;
+        }
+        return r_close(fd);
+    }
     tick();
     int kind = tracked[fd];
     tracked[fd] = 0;
+    if (fd >= 0 && fd < MAXFD) was_tracked[fd] = (unsigned char)kind;
     int r = r_close(fd); int e = errno;
     logf_("close fd=%d kind=%d res=%d errno=%d", fd, kind, r, r < 0 ? e : 0);
     errno = e; return r;
